@@ -93,13 +93,25 @@ def proc_snapshot(pid):
 def no_progress_proof(sid, windows=2, window_s=5.0):
     """True-ish (a snapshot dict) iff every live process of the session burned zero CPU ticks and kept the same
     blocking syscall over `windows` consecutive windows."""
-    pids = session_pids(sid)
+    def relevant(ps):
+        # the log follower (redo-log) polls the log files with a timer; it only reads, nothing waits for it
+        keep = []
+        for p_ in ps:
+            try:
+                with open("/proc/%d/comm" % p_) as f:
+                    if f.read().strip() == "redo-log":
+                        continue
+            except OSError:
+                pass
+            keep.append(p_)
+        return keep
+    pids = relevant(session_pids(sid))
     if not pids:
         return None
     prev = {p: (cpu_ticks(p)[0], proc_snapshot(p).get("syscall")) for p in pids}
     for _ in range(windows):
         time.sleep(window_s)
-        now = session_pids(sid)
+        now = relevant(session_pids(sid))
         if set(now) != set(prev):
             return None
         cur = {p: (cpu_ticks(p)[0], proc_snapshot(p).get("syscall")) for p in now}
